@@ -54,7 +54,7 @@ def setup_worker(tier=None):
 
 
 PRIORS = ['identity', 'covariance', 'random', '@spd']
-GAMMAS = [0.1, 1.0, 10.0, 'inf']
+GAMMAS = [0.1, 1.0, 10.0, 'inf', 1e-3, 1e3]
 
 
 def cases(tier, seed):
@@ -69,7 +69,7 @@ def cases(tier, seed):
     if name == 'ITML_Supervised' and mode == 'satisfied':
       mode = 'explicit'
     conv = (i % 3 != 0)
-    p = {'prior': PRIORS[(i // 2) % 4], 'gamma': GAMMAS[(i // 3) % 4],
+    p = {'prior': PRIORS[(i // 2) % 4], 'gamma': GAMMAS[(i // 3) % 6],
          'max_iter': 5000 if conv else int(r.choice([1, 3, 50])),
          'tol': 1e-12 if conv else float(r.choice([1e-3, 1e-12]))}
     if name == 'ITML_Supervised':
@@ -125,7 +125,8 @@ def run_case(spec, j):
   if spec['mode'] == 'explicit':
     u = float(np.quantile(q0[lab == 1], rng.uniform(0.2, 0.8)))
     lo = float(np.quantile(q0[lab == -1], rng.uniform(0.2, 0.8)))
-    kwargs['bounds'] = np.array([u, lo])
+    kwargs['bounds'] = [np.array([u, lo]), [u, lo], (u, lo)][
+        spec['ds']['seed'] % 3]
   elif spec['mode'] == 'satisfied':
     kwargs['bounds'] = np.array([q0[lab == 1].max() * 1.25,
                                  q0[lab == -1].min() * 0.8])
